@@ -15,11 +15,11 @@ func c12MaxLen() int {
 	return 12
 }
 
-// VH_C12_DecodeHead: DecodeUint / DecodeArrayHeader / DecodeMapHeader on a bytes.Reader over L fully
+// VH_C10_C12_DecodeHead: DecodeUint / DecodeArrayHeader / DecodeMapHeader on a bytes.Reader over L fully
 // symbolic bytes, L = 0..10 (quick) / 0..12 (thorough): success iff the input starts with a complete
 // definite head (additional info 0..27) of the requested major type; value = RFC 8949 argument;
 // exactly the head's bytes are consumed.
-func VH_C12_DecodeHead() {
+func VH_C10_C12_DecodeHead() {
 	vh.MustReach("accept", "reject")
 	L := vh.Choose(c12MaxLen() + 1)
 	in := vh.Bytes("in", L)
@@ -52,12 +52,12 @@ func VH_C12_DecodeHead() {
 	}
 }
 
-// VH_C12_DecodeString: DecodeByteString on L fully symbolic bytes (same L bounds) and DecodeTextString on
+// VH_C10_C12_DecodeString: DecodeByteString on L fully symbolic bytes (same L bounds) and DecodeTextString on
 // L = 0..5 (quick) / 0..6 (thorough) fully symbolic bytes, plus 9-byte heads followed by 0..2 bytes:
 // success iff complete head of the requested type, declared length <= remaining input (compared as
 // uint64, so lengths up to 2^64-1 are covered) and, for text, well-formed UTF-8 (independent Table 3-7
 // predicate); result = exactly the declared bytes; exactly head+content consumed.
-func VH_C12_DecodeString() {
+func VH_C10_C12_DecodeString() {
 	vh.MustReach("accept", "reject-short", "reject-head")
 	text := vh.Choose(2) == 1
 	var L int
